@@ -129,6 +129,7 @@ type Exec struct {
 	netWrites   [][]*term.T
 	netClosed   int
 	tickers     map[*Object]*Timer
+	pools       map[*Object][]Value // sync.Pool model: LIFO reuse (the schedule that aliases most)
 
 	// statistics (cumulative)
 	Stats Stats
@@ -454,6 +455,7 @@ func (e *Exec) resetPath(prefix []Decision) {
 	e.views = nil
 	e.now = nil
 	e.tickers = map[*Object]*Timer{}
+	e.pools = map[*Object][]Value{}
 	e.garbage = map[string]bool{}
 	e.foreignInit = nil
 	e.knownRaces = nil
